@@ -82,7 +82,11 @@ func TestC07(t *testing.T) {
 	var failedStates []fstate
 	runWorld(t, run, []scOpt{s3, s3short, s3m}, []func(*w.MonCtx){w.MonC07, w.MonC05}, 0, func(sc *w.Scenario, s *w.State, d int) {
 		if rs, _ := failedCanary(s); rs != nil {
-			failedStates = append(failedStates, fstate{sc, s})
+			if len(failedStates) < 150000 {
+				failedStates = append(failedStates, fstate{sc, s})
+			} else {
+				run.Count("failed_states_not_kept", 1)
+			}
 		}
 	})
 	fmt.Printf("  failed-canary states: %d\n", len(failedStates))
@@ -157,6 +161,9 @@ func TestC07(t *testing.T) {
 	requireAntecedents(run, "C07/failed-rs-deleted")
 	if run.Counter("skipped_deadline") > 0 {
 		run.NotExhaustive(fmt.Sprintf("%d failed states skipped at the deadline", run.Counter("skipped_deadline")))
+	}
+	if n := run.Counter("failed_states_not_kept"); n > 0 {
+		run.NotExhaustive(fmt.Sprintf("%d failed-canary states beyond the first 150000 were not used as closure starts", n))
 	}
 	c13Lattice(t, run) // retention / emptiness decision at 119, 120, 121 s and all counter combinations
 	run.Cov["evaluations"] = run.Counter("closures") + run.Counter("fault_runs")
